@@ -145,7 +145,11 @@ func report(prop, tier string, all []*Obligation, functions []string, trusted, i
 		if o.Result.Status == "sat" {
 			rf.Model = extractModel(o)
 		}
-		if tryReplay(o, &rf) {
+		if o.Class == "W" && o.witness != nil {
+			rf.ReplayTest, rf.ReplayCmd, rf.ReplayOutput = o.witness.Body, o.witnessOut.Cmd, o.witnessOut.Output
+			rf.ReplayResult = "confirmed: " + o.witness.Input
+			suffix = ""
+		} else if tryReplay(o, &rf) {
 			suffix = ""
 		}
 		rp := filepath.Join(rdir, replayBase(o.Name)+".json")
